@@ -137,3 +137,93 @@ def goReadBitList (bitLimit : Nat) (bs : Bytes) : Bool :=
       else true
 
 end Zrnt.SSZ
+
+namespace Zrnt.SSZ
+
+/-! ### leaf types: the Go value *is* its encoding (byte arrays, byte slices, bitfields kept as raw bytes,
+integers as their little-endian bytes) -/
+
+/-- the five methods of a leaf type as functions of the raw representation -/
+structure LeafImpl where
+  des : Bytes → Option Bytes
+  ser : Bytes → Bytes
+  blen : Bytes → Nat
+  flen : Nat
+  root : Bytes → Chunk
+
+/-- the leaf implementation computes the specification's functions at `t` (through the encoding of the value) -/
+def LeafImpl.Meets (H : Hash2) (t : Ty) (L : LeafImpl) : Prop :=
+  (∀ bs, L.des bs = (decode t bs).map (encode t)) ∧ L.flen = t.fixedLen ∧
+  ∀ v, WF t v → L.ser (encode t v) = encode t v ∧ L.blen (encode t v) = byteLength t v ∧ L.root (encode t v) = htr H t v
+
+/-- the `Impl` over values a leaf implementation induces (decode into the raw form, act, read back) -/
+def LeafImpl.lift (t : Ty) (L : LeafImpl) : Impl :=
+  { ser := fun v => L.ser (encode t v)
+    des := fun bs => (L.des bs).bind (decode t)
+    blen := fun v => L.blen (encode t v)
+    flen := L.flen
+    root := fun v => L.root (encode t v) }
+
+/-- `dr.Read(p[:])` into an `n`-byte array / `UintNView.Deserialize`: exactly `n` bytes -/
+def goReadExact (n : Nat) (bs : Bytes) : Option Bytes := if bs.length = n then some bs else none
+
+/-- `dr.BitVector(dst, bitLen)` + `bitfields.BitvectorCheck`, and the array variants (`ReadAll` for a multiple of 8,
+the padding check `last >> (bitLen mod 8) ≠ 0 ⇒ error`): `ceil(bitLen/8)` bytes whose unused high bits are zero -/
+def goReadBitVector (bitLen : Nat) (bs : Bytes) : Option Bytes :=
+  if bs.length = (bitLen + 7) / 8 then
+    if bitLen % 8 = 0 then some bs
+    else
+      match bs.getLast? with
+      | some last => if last.toNat / 2 ^ (bitLen % 8) = 0 then some bs else none
+      | none => none
+  else none
+
+/-- `dr.ByteList(dst, limit)` -/
+def goReadByteList (limit : Nat) (bs : Bytes) : Option Bytes := if bs.length ≤ limit then some bs else none
+
+/-- ztyp `HashFn.BitVectorHTR(bits)` / `ByteVectorHTR`: the raw bytes in 32-byte chunks (`Merkleize(chunks, chunks)`) -/
+def goBytesRoot (H : Hash2) (raw : Bytes) : Chunk := merkleize H (pack raw) (ceilLog2 ((raw.length + 31) / 32))
+
+/-- ztyp `HashFn.ByteListHTR(values, limit)`: chunk limit `ceil(limit/32)`, byte length mixed in -/
+def goByteListRoot (H : Hash2) (limit : Nat) (raw : Bytes) : Chunk :=
+  mixInLength H (merkleize H (pack raw) (ceilLog2 ((limit + 31) / 32))) raw.length
+
+/-- `bitfields.BitlistLen`: 8 bits per byte before the last one plus the index of the delimiter bit in the last byte -/
+def goBitlistLen (raw : Bytes) : Nat :=
+  match raw.getLast? with
+  | none => 0
+  | some last => (raw.length - 1) * 8 + Nat.log2 last.toNat
+
+/-- clear bit `r` of a byte (Go: `b &^= 1 << r`) -/
+def clearBit (b : UInt8) (r : Nat) : UInt8 := UInt8.ofNat (b.toNat - (b.toNat / 2 ^ r % 2) * 2 ^ r)
+
+/-- the bytes ztyp's `BitListHTR` merkleizes: the raw bitlist cut to `ceil(bitLen/8)` bytes with the delimiter bit
+masked out (the delimiter byte disappears altogether when `bitLen` is a multiple of 8) -/
+def goBitlistPayload (raw : Bytes) : Bytes :=
+  let L := goBitlistLen raw
+  let q := L / 8
+  if L % 8 = 0 then raw.take q
+  else raw.take q ++ [clearBit (raw.getD q 0) (L % 8)]
+
+/-- ztyp `HashFn.BitListHTR(bits, bitlimit)` -/
+def goBitListRoot (H : Hash2) (bitLimit : Nat) (raw : Bytes) : Chunk :=
+  mixInLength H (merkleize H (pack (goBitlistPayload raw)) (ceilLog2 ((bitLimit + 255) / 256))) (goBitlistLen raw)
+
+/-! ### `hFn.Uint64ListHTR` / `Uint64VectorHTR` at the level of the chunk function
+
+ztyp computes chunk `i` by writing the items `4i, 4i+1, 4i+2, 4i+3` that lie below `length` little-endian at
+offsets 0, 8, 16, 24 of a zeroed 32-byte array; `(length + 3) >> 2` chunks; chunk limit `(limit + 3) >> 2`. -/
+
+def goUint64Chunk (vals : List Nat) (i : Nat) : Chunk :=
+  padTo32 (((vals.drop (4 * i)).take 4).flatMap (natToLE 8))
+
+def goUint64Chunks (vals : List Nat) : List Chunk :=
+  (List.range ((vals.length + 3) / 4)).map (goUint64Chunk vals)
+
+def goUint64ListRoot (H : Hash2) (limit : Nat) (vals : List Nat) : Chunk :=
+  mixInLength H (merkleize H (goUint64Chunks vals) (ceilLog2 ((limit + 3) / 4))) vals.length
+
+def goUint64VectorRoot (H : Hash2) (length : Nat) (vals : List Nat) : Chunk :=
+  merkleize H (goUint64Chunks vals) (ceilLog2 ((length + 3) / 4))
+
+end Zrnt.SSZ
